@@ -247,3 +247,41 @@ Theorem C17_file_storage_prefix_irrelevant :
     l1 = l2.
 Proof. exact load_file_prefix_irrelevant. Qed.
 Print Assumptions C17_file_storage_prefix_irrelevant.
+
+(* a workspace with distinct node keys (every tree-shaped one: [ws_treeb], evaluated by the correspondence on
+   every generated case) is loaded as a finite map *)
+Theorem C17_file_storage_keys_distinct :
+  forall p w k l,
+    keys_distinct (map f_key w) = true -> load_file p w k = FlOk l -> NoDup (map fst l).
+Proof. exact load_file_keys_distinct. Qed.
+Print Assumptions C17_file_storage_keys_distinct.
+
+(* the INDEX after DataIndex._load through a FileStorage, for every key: below k the explicit index over the
+   workspace answers (what the trie held there before is overwritten only where the workspace has a node),
+   at k the entry gains the bookkeeping flag, everywhere else nothing changes *)
+Theorem C17_file_storage_index_lookup :
+  forall p w k i i',
+    idx_load_file p w k i = Some i' ->
+    forall k',
+      lookup i' k' =
+      if strict_prefix k k'
+      then match lookup (explicit_of p w) k' with Some e => Some e | None => lookup i k' end
+      else if key_eqb k' k then option_map mark (lookup i k') else lookup i k'.
+Proof. exact idx_load_file_lookup. Qed.
+Print Assumptions C17_file_storage_index_lookup.
+
+(* under the property's premise (the directory is held as a single unloaded entry: nothing stored below k) the
+   lazily loaded index answers every key below k exactly as the explicit index, and every other key as before *)
+Theorem C17_file_storage_index_transparent :
+  forall p w k i i',
+    (forall k', strict_prefix k k' = true -> lookup i k' = None) ->
+    idx_load_file p w k i = Some i' ->
+    (forall k', strict_prefix k k' = true -> lookup i' k' = lookup (explicit_of p w) k') /\
+    (forall k', strict_prefix k k' = false -> lookupS i' k' = lookupS i k').
+Proof. exact idx_load_file_transparent. Qed.
+Print Assumptions C17_file_storage_index_transparent.
+
+Theorem C17_file_storage_refused_load_not_remembered :
+  forall p w k i, idx_load_file p w k i = None <-> (forall l, load_file p w k <> FlOk l).
+Proof. exact idx_load_file_refused. Qed.
+Print Assumptions C17_file_storage_refused_load_not_remembered.
